@@ -14,7 +14,7 @@ PROPS["C01"] = dict(
                  "generator are correct", "tolerance kappa=10 x FEASTOL/OPTTOL as fixed in DESIGN.md 3.5"],
     min_nontrivial=dict(quick=500, thorough=20000),
     stages=[dict(name="planted", target="solve", x=dict(prop="C01"),
-                 quick=dict(cases=4000, maxsize=80), thorough=dict(cases=150000, maxsize=100))],
+                 quick=dict(cases=12000, maxsize=80), thorough=dict(cases=150000, maxsize=100))],
 )
 
 PROPS["C02"] = dict(
@@ -66,7 +66,7 @@ PROPS["C06"] = dict(
                  "(dataset.h), multi-removals follow the reported permutation, implicitly created columns/rows have the default "
                  "LPCol/LPRow values", "zero-dimensional LPs are modified and compared but their solves are not judged"],
     min_nontrivial=dict(quick=2000, thorough=100000),
-    stages=[dict(name="hist", target="hist", x=dict(prop="C06"), quick=dict(cases=1500, maxsize=80), thorough=dict(cases=40000, maxsize=100)),
+    stages=[dict(name="hist", target="hist", x=dict(prop="C06"), quick=dict(cases=3000, maxsize=80), thorough=dict(cases=40000, maxsize=100)),
             dict(name="asan", target="hist", flavour="asan", x=dict(prop="C06"), quick=dict(cases=60, maxsize=60, shards=8), thorough=dict(cases=2500, maxsize=100))],
 )
 PROPS["C09"] = dict(
@@ -76,7 +76,7 @@ PROPS["C09"] = dict(
     assumptions=["part (d) of the C09 design (data added/changed under persistent scaling) and the accessor-invisibility claim; parts (a)-(c) "
                  "(bare scaler objects, file bytes) are covered by C01/C02 scaled variants and C12"],
     min_nontrivial=dict(quick=1500, thorough=80000),
-    stages=[dict(name="hist", target="hist", x=dict(prop="C09"), quick=dict(cases=1500, maxsize=80), thorough=dict(cases=40000, maxsize=100))],
+    stages=[dict(name="hist", target="hist", x=dict(prop="C09"), quick=dict(cases=3000, maxsize=80), thorough=dict(cases=40000, maxsize=100))],
 )
 PROPS["C04"] = dict(
     level="exploration",
@@ -84,7 +84,7 @@ PROPS["C04"] = dict(
          "termination; distinct = case text.",
     assumptions=["regularity is judged exactly (rank over Q of the basis matrix assembled from the model) for bases returned by solves"],
     min_nontrivial=dict(quick=4000, thorough=150000),
-    stages=[dict(name="hist", target="hist", x=dict(prop="C04"), quick=dict(cases=1500, maxsize=80), thorough=dict(cases=40000, maxsize=100)),
+    stages=[dict(name="hist", target="hist", x=dict(prop="C04"), quick=dict(cases=3000, maxsize=80), thorough=dict(cases=40000, maxsize=100)),
             # exact solves (all exact-solver options incl. EQTRANS): the rational vectors must be exactly the basic solution of the
             # returned basis (every nonbasic variable exactly on the bound its status names, zero dual values on basic variables)
             dict(name="exactbasis", target="exact", x=dict(prop="C04"), quick=dict(cases=150, maxsize=70, timeout=2400), thorough=dict(cases=3000, maxsize=100))],
